@@ -35,9 +35,16 @@ def main():
         res = rep(**d["args"]) if rep is not None else fn(**d["args"])
         verdict = "holds" if res else "violates"
         detail = "returned %r" % (res,)
-    except BaseException as e:  # an exception escaping the real code is a failure of the property harness
-        verdict = "violates"
-        detail = "raised " + "".join(traceback.format_exception_only(type(e), e)).strip()[:500]
+    except BaseException as e:
+        # an exception escaping the real code is a violation; one raised by the harness itself (innermost frame under
+        # /verif/vf, e.g. a NameError in an oracle) is a harness error and must never be reported as a finding
+        tb = traceback.extract_tb(e.__traceback__)
+        here = os.path.dirname(os.path.abspath(__file__)) + os.sep
+        inner = tb[-1].filename if tb else ""
+        in_harness = os.path.abspath(inner).startswith(here)
+        verdict = "harness-error" if in_harness else "violates"
+        where = "%s:%s" % (os.path.basename(inner), tb[-1].lineno) if tb else "?"
+        detail = "raised " + "".join(traceback.format_exception_only(type(e), e)).strip()[:500] + " at " + where
     print("VFREPLAY " + json.dumps({"verdict": verdict, "detail": detail}))
 
 
